@@ -33,6 +33,18 @@ class Ctx:
         self.functions = set()
         self.extra = {}
         self._seen_keys = set()
+        self.config = self.configs[0]
+
+    def set_config(self, cfg, prog, ex=None):
+        """thorough tier: evaluate the same rules over another build configuration"""
+        self.extra.setdefault("per_config", {})[self.config] = {"obligations": self.obligations, "discharged": self.discharged}
+        self.config = cfg
+        self.prog = prog
+        for k in ("_fv", "_ens", "_men", "_cs", "_cs_inprogress", "_atomic"):   # per-program caches (keyed by def id)
+            self.__dict__.pop(k, None)
+        if cfg not in self.configs:
+            self.configs.append(cfg)
+        self.extra.setdefault("extraction_per_config", {})[cfg] = ex
 
     # -- bookkeeping -------------------------------------------------------
     def rule(self, rid, text):
@@ -57,6 +69,8 @@ class Ctx:
             if full in self._seen_keys:
                 return ok
             self._seen_keys.add(full)
+            if self.config != "default":
+                what = f"[build configuration {self.config}] {what}"
             self.violations.append({"key": full, "rule": rid, "what": what, "where": where,
                                     "detail": detail})
         return ok
@@ -103,6 +117,10 @@ class Ctx:
                 d = v["detail"] if isinstance(v["detail"], str) else json.dumps(v["detail"], default=str)
                 lines.append(f"  {d[:1500]}")
         distinct = sum(1 for r, n in self.rule_instances.items() if n > 0)
+        if "per_config" in self.extra:
+            prev = sum(v["obligations"] for v in self.extra["per_config"].values())
+            prevd = sum(v["discharged"] for v in self.extra["per_config"].values())
+            self.extra["per_config"][self.config] = {"obligations": self.obligations - prev, "discharged": self.discharged - prevd}
         ev = {
             "property_id": self.pid,
             "tier": self.tier,
